@@ -443,4 +443,10 @@ def extra_checks(ctx, cases, impl_lines, model_lines):
                        for a in apps.values())
         except Exception:
             return False
-    return xcheck.borrow(ctx, "C14", "a pattern encoder declared in a configuration file", has_pattern, n=30)
+    res = xcheck.borrow(ctx, "C14", "a pattern encoder declared in a configuration file", has_pattern, n=30)
+    if res:
+        return res
+    # "nothing dropped": width specs the unary model is not run on (maxima of 2^k + r, minima around 2^16, minima no
+    # sink can hold into a sink that fails after 300 bytes) judged directly
+    from gen import c11
+    return c11.wide_spec_checks(ctx, ctx["vc"].build_harness("c11"))
